@@ -140,7 +140,18 @@ def check_structure_hex(ctx, L, ex):
     base = summary(O.run_decode(case.type, case.data, command_code=case.cc, enc=case.enc, strict=True))
     got = summary(O.run_decode(case.type, text.encode(), command_code=case.cc, enc=case.enc, strict=True, marshal=Hex.marshal))
     ctx.case(("hex", case.type, text), noise["ws_inside_pairs"] > 0)
-    same(ctx, "hex", got, base, dict(case_payload(case), container="hex", text=text), f"{case.type} {case.data.hex()[:200]}; hex text {text[:300]!r}")
+    if not same(ctx, "hex", got, base, dict(case_payload(case), container="hex", text=text), f"{case.type} {case.data.hex()[:200]}; hex text {text[:300]!r}"):
+        return
+    # Auto (the default front end of Canonical) on the bytes themselves, however short, when they cannot be mistaken for
+    # hex text or a pcapng file (D-5: detection looks at the first two bytes)
+    from tpmstream.io.auto import Auto
+
+    d = case.data
+    if len(d) >= 2 and d[:2] != b"\x0a\x0d" and not (chr(d[0]) in containers.HEXDIGITS and chr(d[1]) in containers.HEXDIGITS):
+        got = summary(O.run_decode(case.type, d, command_code=case.cc, enc=case.enc, strict=True, marshal=Auto.marshal))
+        ctx.case(("auto-binary", case.type, d), len(d) <= 3)
+        ctx.count("auto-binary-structures" + (":short" if len(d) <= 3 else ""))
+        same(ctx, "auto-binary", got, base, dict(case_payload(case), container="auto-binary"), f"{case.type} {d.hex()[:200]} through Auto")
 
 
 HEX_ALPHABET = ["0", "a", "F", "g", "+", "-", " ", "\n"]
